@@ -141,6 +141,25 @@ func CheckLogfmtRecord(payload []byte, exp ExpRecord, errorDump bool) *Problem {
 	if len(pairs) < len(head) {
 		return problem("C05/members", "record has only %d pairs; payload %s", len(pairs), Short(string(payload)))
 	}
+	if exp.QuotingNotJudged {
+		// the order "time, logger, level, msg" is C05's clause as well: the other checks take the leading members in
+		// whatever order they stand
+		lead := map[string]LPair{}
+		for _, p := range pairs[:len(head)] {
+			lead[p.Key] = p
+		}
+		if len(lead) == len(head) {
+			sorted, all := make([]LPair, 0, len(head)), true
+			for _, k := range head {
+				p, ok := lead[k]
+				all = all && ok
+				sorted = append(sorted, p)
+			}
+			if all {
+				pairs = append(sorted, pairs[len(head):]...)
+			}
+		}
+	}
 	for i, k := range head {
 		if pairs[i].Key != k {
 			return problem("C05/members", "pair #%d has key %q, want %q; payload %s", i, pairs[i].Key, k, Short(string(payload)))
@@ -180,11 +199,17 @@ func CheckLogfmtRecord(payload []byte, exp ExpRecord, errorDump bool) *Problem {
 		// the three caller pairs, wherever they stand after the message and in whatever order
 		var keep []LPair
 		seen := map[string]LPair{}
+		inBlock := false
 		for _, p := range rest {
 			if _, dup := seen[p.Key]; !dup && (p.Key == "caller.file" || p.Key == "caller.line" || p.Key == "caller.function") {
 				seen[p.Key] = p
+				inBlock = true
 				continue
 			}
+			if inBlock && strings.HasPrefix(p.Key, "caller.") {
+				continue // a further member of the caller group, right behind the stated three: not forbidden by any statement
+			}
+			inBlock = false
 			keep = append(keep, p)
 		}
 		if len(seen) != 3 {
